@@ -1073,8 +1073,12 @@ def slotStores : List String :=
 def slotPanicsNonPos : List String :=
   ["storeStack", "storeStack1", "storeStack1Lex", "storeStackP", "storeStack1P", "storeStack1LexP", "initStack1", "initStack1P"]
 
+/-- the struct-typed ones carry the slot in their `idx` field, the int-typed ones are the slot number (`n` in the dump) -/
+def slotInIdx : List String :=
+  ["loadMixedStack", "loadMixedStack1", "loadMixedStackLex", "loadMixedStack1Lex", "resolveMixedStack", "resolveMixedStack1"]
+
 def slotNeed (base : Nat) (name : String) (ops : List (String × Int)) : Nat :=
-  let l := if name.startsWith "loadMixed" || name.startsWith "resolveMixed" then lookupOp ops "idx" else lookupOp ops "n"
+  let l := if slotInIdx.contains name then lookupOp ops "idx" else lookupOp ops "n"
   if slotLoads.contains name then (if l > 0 then l.toNat - 1 + base + 1 else 0)
   else if slotStores.contains name then
     (if l > 0 then l.toNat - 1 + base + 2 else if slotPanicsNonPos.contains name then 1073741824 else 0)
